@@ -40,6 +40,7 @@ pub use crate::ln::channelmanager::verif_hooks as channelmanager;
 // Revocation discipline (commitment numbers, signer call log)
 // ---------------------------------------------------------------------------------------------
 
+pub use crate::chain::channelmonitor::verif_hooks_holder_sigs::HolderSigView;
 pub use crate::ln::channel::verif_hooks_revoke::RevocationView;
 #[cfg(feature = "std")]
 pub use crate::util::test_channel_signer::verif_hooks_signer_log as signer_log;
